@@ -263,3 +263,170 @@ Definition majority_judgment (plus : bool) (cf : score_cfg) (votes : sprofile) (
           end
       end
   end.
+
+(* ================================================================ the repairs of wave 6 (fixes/C12-*.diff)
+   The definitions above stay as they are: the code as pinned.  The [_x] definitions below take the set of repairs
+   that is applied; [pinned] (no repair) gives the definitions above back (Proofs/Repair_proofs.v), [repaired] is the
+   code the harness runs against.
+   rp_trunc   fixes/C12-truncation-middle    the cut-off never goes past the middle score(s) of the candidate
+   rp_mj      fixes/C12-mj-default-exhausted a level candidate that has run out of scores ranks below the others
+   rp_counted fixes/C12-score-counted        sum / mean / min / low median are computed from the (score -> count)
+                                             dictionary, no list with one element per voter *)
+Record repairs := { rp_trunc : bool; rp_mj : bool; rp_counted : bool }.
+Definition pinned : repairs := {| rp_trunc := false; rp_mj := false; rp_counted := false |}.
+Definition repaired : repairs := {| rp_trunc := true; rp_mj := true; rp_counted := true |}.
+
+(* util._counted_sum *)
+Definition cs_wsum (d : cscores) : Q := fold_left (fun acc sn => acc + fst sn * inject_Z (snd sn)) d 0.
+(* the values with a positive count *)
+Definition pos_keys (d : cscores) : list Q := map fst (filter (fun sn : Q * Z => (0 <? snd sn)%Z) d).
+
+(* util._counted_middle over the sorted values with a positive count: [low] is fixed by the first value whose running
+   count reaches half of the total, the answer is given at the first value whose running count passes it;
+   None = StatisticsError (no value with a positive count passes half of the total) *)
+Fixpoint counted_middle (d : cscores) (keys : list Q) (total running : Z) (low : option Q) : option (Q * Q) :=
+  match keys with
+  | [] => None
+  | v :: t =>
+      let running := (running + match cs_get d v with Some k => k | None => 0 end)%Z in
+      let low := match low with
+                 | Some l => Some l
+                 | None => if (total <=? 2 * running)%Z then Some v else None
+                 end in
+      if (total <? 2 * running)%Z then match low with Some l => Some (l, v) | None => None end
+      else counted_middle d t total running low
+  end.
+
+Definition aggregate_one_w (fn : aggfn) (d : cscores) : Q + serr :=
+  match fn with
+  | FSum => inl (Qred (cs_wsum d))
+  | FMean => if (cs_total d =? 0)%Z then inr SE_zerodiv                  (* Fraction(total, 0) *)
+             else inl (Qred (cs_wsum d / inject_Z (cs_total d)))
+  | FMedianLow => match counted_middle d (sort_q (pos_keys d)) (cs_total d) 0%Z None with
+                  | Some (l, _) => inl l
+                  | None => inr SE_stats
+                  end
+  end.
+
+Definition aggregate_one_x (rp : repairs) (fn : aggfn) (d : cscores) : Q + serr :=
+  if rp_counted rp then aggregate_one_w fn d else aggregate_one fn d.
+
+Definition correct_scores_x (rp : repairs) (cf : score_cfg) (d : cscores) (n_votes : Z) : cscores + serr :=
+  let n_scores := cs_total d in
+  if (n_scores <? sc_min_count cf)%Z then inl [(sc_bottom cf, sc_min_count cf)] else
+  let d1 : cscores + serr :=
+    match sc_unscored cf with
+    | UNone => inl d
+    | UConst v => inl (cs_set d v (n_votes - n_scores + match cs_get d v with Some n => n | None => 0 end))
+    | UMin => match list_min (if rp_counted rp then pos_keys d else expand d) with
+              | Some v => inl (cs_set d v (n_votes - n_scores + match cs_get d v with Some n => n | None => 0 end))
+              | None => inr SE_value
+              end
+    end in
+  match d1 with
+  | inr e => inr e
+  | inl d1 =>
+      if Qle_bool (sc_trunc cf) 0 then inl d1 else
+      let cutoff0 := if Qle_bool 1 (sc_trunc cf) then Qfloor (sc_trunc cf)
+                     else Qfloor (inject_Z (if (n_votes =? 0)%Z then n_scores else n_votes) * sc_trunc cf) in
+      (* cutoff = max(0, min(cutoff, (sum(scores.values()) - 1) // 2)) *)
+      let cutoff := if rp_trunc rp then Z.max 0 (Z.min cutoff0 ((cs_total d1 - 1) / 2)) else cutoff0 in
+      let keys := sort_q (map fst d1) in
+      match subtract_lowest d1 keys cutoff 0 with
+      | None => inr SE_key
+      | Some d2 => match subtract_lowest d2 (rev keys) cutoff 0 with
+                   | None => inr SE_key
+                   | Some d3 => inl d3
+                   end
+      end
+  end.
+
+Definition corrected_scores_x (rp : repairs) (cf : score_cfg) (votes : sprofile) : list (C * cscores) + serr :=
+  let n_votes := fold_left Z.add (map snd votes) 0%Z in
+  sequence (map (fun cd => (fst cd, correct_scores_x rp cf (snd cd) n_votes)) (raw_scores votes)).
+
+Definition aggregate_x (rp : repairs) (fn : aggfn) (sc : list (C * cscores)) : list (C * Q) + serr :=
+  sequence (map (fun cd => (fst cd, aggregate_one_x rp fn (snd cd))) sc).
+
+Definition score_to_simple_x (rp : repairs) (cf : score_cfg) (votes : sprofile) : list (C * Q) + serr :=
+  match corrected_scores_x rp cf votes with
+  | inr e => inr e
+  | inl sc => aggregate_x rp (sc_fn cf) sc
+  end.
+
+Definition score_voting_x (rp : repairs) (cf : score_cfg) (votes : sprofile) (n : nat) : list (res C) + serr :=
+  match score_to_simple_x rp cf votes with
+  | inr e => inr e
+  | inl agg => inl (get_n_best Qle_bool agg n)
+  end.
+
+Definition mj_plus_x (rp : repairs) (sub : list (C * cscores)) (n : nat) : list (res C) + serr :=
+  match sub with
+  | [] => inr SE_stats
+  | (_, d0) :: _ =>
+      match aggregate_one_x rp FMedianLow d0 with
+      | inr e => inr e
+      | inl med => inl (get_n_best Qle_bool (map (fun cd => (fst cd, inject_Z (counts_over (snd cd) med))) sub) n)
+      end
+  end.
+
+(* the candidates that still hold a score *)
+Definition mj_live (sub : list (C * cscores)) : list (C * cscores) :=
+  filter (fun cd : C * cscores => negb (cs_total (snd cd) =? 0)%Z) sub.
+
+Fixpoint mj_default_x (rp : repairs) (fuel : nat) (sub : list (C * cscores)) (n : nat) : list (res C) + serr :=
+  match fuel with
+  | O => inr SE_fuel
+  | S f =>
+      let mx := fold_left Z.max (map (fun cd => cs_total (snd cd)) sub) 0%Z in
+      if (mx <=? 0)%Z then inr SE_vse else
+      (* repaired: a candidate that has run out of scores ranks below those that still have some; when fewer live
+         candidates than seats are left the cut falls among the exhausted ones: `break` -> VotingSystemError *)
+      let sub := if rp_mj rp then mj_live sub else sub in
+      if rp_mj rp && Nat.ltb (length sub) n then inr SE_vse else
+      match aggregate_x rp FMedianLow sub with
+      | inr e => inr e
+      | inl medians =>
+          let best := get_n_best Qle_bool medians n in
+          let untied := length (filter (fun r => match r with Cand _ => true | _ => false end) best) in
+          if Nat.eqb (count_tie best) 0 then inl best
+          else if Nat.ltb 0 untied then
+            let winners := firstn untied best in
+            let wc := flat_map (fun r => match r with Cand c => [c] | _ => [] end) winners in
+            match mj_default_x rp f (filter (fun cd => negb (cmem (fst cd) wc)) sub) (n - untied) with
+            | inl r => inl (winners ++ r)
+            | inr e => inr e
+            end
+          else
+            let tied := match best with TieR l :: _ => l | _ => [] end in
+            let sub1 := filter (fun cd => cmem (fst cd) tied) sub in
+            let ch0 := closest_change sub1 medians in
+            let ch := if (ch0 =? 0)%Z then 1%Z else ch0 in
+            mj_default_x rp f (map (fun cd : C * cscores =>
+                            let m := dget_or medians (fst cd) 0%Q in
+                            (fst cd, cs_set (snd cd) m (match cs_get (snd cd) m with Some k => k | None => 0%Z end - ch))) sub1) n
+      end
+  end.
+
+Definition majority_judgment_x (rp : repairs) (plus : bool) (cf : score_cfg) (votes : sprofile) (n : nat)
+    : list (res C) + serr :=
+  match corrected_scores_x rp cf votes with
+  | inr e => inr e
+  | inl sc =>
+      match aggregate_x rp FMedianLow sc with
+      | inr e => inr e
+      | inl med =>
+          let order := get_n_best Qle_bool med n in
+          match last_tie order with
+          | None => inl order
+          | Some tied =>
+              let k := count_tie order in
+              let sub := filter (fun cd => cmem (fst cd) tied) sc in
+              match (if plus then mj_plus_x rp sub k
+                     else mj_default_x rp (Z.to_nat (fold_left Z.add (map (fun cd => cs_total (snd cd)) sub) 0%Z) + 2) sub k) with
+              | inl r => inl (firstn (length order - k) order ++ r)
+              | inr e => inr e
+              end
+          end
+      end
+  end.
